@@ -147,7 +147,7 @@ impl World {
             Err(_) => false,
         };
         let val = build::describe(&self.reg, &record.value);
-        d.puts.push(json!({"key": kname, "val": val, "refused_by_driver": !ok}));
+        d.puts.push(json!({"key": kname, "key_hex": hex::encode(record.key.as_ref()), "val": val, "refused_by_driver": !ok}));
         if ok {
             d.outbox.push(record);
         }
@@ -167,7 +167,7 @@ impl World {
         Value::Array(
             self.store
                 .iter()
-                .map(|(k, s)| json!({"key": build::key_name(&self.reg, k), "val": build::describe(&self.reg, &s.value), "listed": s.listed}))
+                .map(|(k, s)| json!({"key": build::key_name(&self.reg, k), "key_hex": hex::encode(k), "val": build::describe(&self.reg, &s.value), "listed": s.listed}))
                 .collect(),
         )
     }
